@@ -17,7 +17,8 @@ defects and seeded changes still surface.
                                   its second neighbour in the ring it comes from is still unwritten, and that neighbour and a neighbour in the other ring
                                   lie in one orbit and are equally far from the start atom of the canonical string: class, class size and breadth-first
                                   distance tie although own-ring / other-ring are not equivalent once the traversal has entered a ring.
-  thiele-sssr-choice              a chordless six-membered ring with alternating double bonds (Kekule form) and a second ring of the same size whose symmetric
+  thiele-sssr-choice              a chordless six-membered ring with alternating double bonds, or a chordless pyrrole-type five-membered ring (Kekule
+                                  form), that is not essential: a second ring of the same size whose symmetric
                                   difference with it is one smaller ring: only one of the two enters the SSSR, `thiele()` aromatises or not.
   diene-ring-closure-direction    two labelled, conjugated cis/trans double bonds (C=C-C=C) that lie in one ring: when one of them is written as the
                                   ring-closure bond the writer emits a wrong direction mark.
@@ -159,20 +160,42 @@ def thiele_sssr_choice(m):
     g = _graph(k)
     order = {frozenset((a, b)): bd.order for a, b, bd in k.bonds()}
     for comp in nx.biconnected_components(g):
-        if len(comp) < 6:
+        if len(comp) < 5:
             continue
         h = g.subgraph(comp)
         if h.number_of_edges() - h.number_of_nodes() + 1 < 2:
             continue
-        six = [c for n, c in _cycles(h, 6) if n == 6]
-        for c in six:
-            atoms = {v for e in c for v in e}
-            if any(sum(order[e] == 2 for e in c if v in e) != 1 for v in atoms):
-                continue  # not an alternating ring
-            if any(frozenset((a, b)) not in c for a, b in h.subgraph(atoms).edges):
-                continue  # a ring with a chord is the sum of two shorter rings: in no minimum cycle basis, never looked at by thiele()
-            for c2 in six:
-                if c2 != c and len(c ^ c2) < 6 and _single_cycle(c ^ c2):
+        for size in (6, 5):
+            rings = [c for n, c in _cycles(h, size) if n == size]
+            for c in rings:
+                atoms = {v for e in c for v in e}
+                dbl = {v: sum(order[e] == 2 for e in c if v in e) for v in atoms}
+                if size == 6:
+                    if any(x != 1 for x in dbl.values()):
+                        continue  # not an alternating ring
+                else:
+                    # five-membered ring thiele() can aromatise: two ring double bonds and one heteroatom without a ring double bond (pyrrole type)
+                    lone = [v for v, x in dbl.items() if x == 0]
+                    if sorted(dbl.values()) != [0, 1, 1, 1, 1] or k._atoms[lone[0]].atomic_number not in (7, 8, 15, 16, 34):
+                        continue
+                if any(frozenset((a, b)) not in c for a, b in h.subgraph(atoms).edges):
+                    continue  # a ring with a chord is the sum of two shorter rings: in no minimum cycle basis, never looked at by thiele()
+                for c2 in rings:
+                    if c2 != c and len(c ^ c2) < size and _single_cycle(c ^ c2):
+                        return True
+                # general form of the same condition: the ring is not ESSENTIAL - it is a GF(2) sum of other cycles that are no longer than itself,
+                # so some minimum cycle basis leaves it out (which one is perceived depends on the numbering)
+                from oracles.cycles import gf2_rank
+                eidx = {e: i for i, e in enumerate(sorted(h.edges, key=sorted))}
+
+                def vec(cyc):
+                    v = 0
+                    for e in cyc:
+                        a, b = tuple(e)
+                        v |= 1 << eidx[(a, b) if (a, b) in eidx else (b, a)]
+                    return v
+                others = [vec(x) for n, x in _cycles(h, size) if x != c]
+                if others and gf2_rank(others + [vec(c)]) == gf2_rank(others):
                     return True
     return False
 
